@@ -20,6 +20,7 @@ class ArmPath:
         self.events = []       # ordered ('store'|'call'|'branch', payload)
         self.notes = []
         self.truth = {}        # bool variable -> (leaves, f) whose non-zero-ness it holds
+        self.btruth = {}       # condition node id -> (leaves, f) of the condition as evaluated when the branch was taken
 
 
 def idx_desc(node):
@@ -317,6 +318,12 @@ class RegSetModel:
             if kind == "branch":
                 ap.facts.append(x)
                 ap.events.append(("branch", x))
+                try:
+                    tv = truth_of(ap, x[0])
+                except Exception:
+                    tv = None
+                if tv is not None:
+                    ap.btruth[x[0].id] = tv
                 continue
             h = self._helper_of(x) if depth < 2 else None
             if h is None:
@@ -329,7 +336,7 @@ class RegSetModel:
             for edges, _ in C.enumerate_paths(clone, max_visits=1):
                 q = copy.copy(ap)
                 q.classes, q.edges = list(ap.classes), list(ap.edges)
-                q.env, q.sym, q.truth = dict(ap.env), dict(ap.sym), dict(ap.truth)
+                q.env, q.sym, q.truth, q.btruth = dict(ap.env), dict(ap.sym), dict(ap.truth), dict(ap.btruth)
                 q.reg_stores, q.calls, q.facts, q.events, q.notes = list(ap.reg_stores), list(ap.calls), list(ap.facts), list(ap.events), list(ap.notes)
                 for pname, arg in byvalue:
                     v = eval_bits(q, arg)
